@@ -251,12 +251,12 @@ package ast
 //@   ensures errorkeeps: err != nil ==> e.Evaluated == old(e.Evaluated)
 //@   ensures monotone: (forall x *Expression :: old(x.Evaluated) ==> x.Evaluated && x.Value == old(x.Value)) && (forall a *ExpressionAtom :: old(a.Evaluated) ==> a.Evaluated && a.Value == old(a.Value))
 //@   ensures memoset: err == nil && (e.ExpressionAtom != nil || e.SingleExpression != nil || (e.LeftExpression != nil && e.RightExpression != nil)) ==> e.Evaluated
-//@   ensures[C05,C01] dispatch: !old(e.Evaluated) && err == nil && isBinary(e) && e.Operator != OpAnd && e.Operator != OpOr && 0 <= e.Operator && e.Operator <= OpOr
+//@   ensures[C05,C01,C14] dispatch: !old(e.Evaluated) && err == nil && isBinary(e) && e.Operator != OpAnd && e.Operator != OpOr && 0 <= e.Operator && e.Operator <= OpOr
 //@        ==> e.LeftExpression.Evaluated && e.RightExpression.Evaluated && val == opResult(e.Operator, e.LeftExpression.Value, e.RightExpression.Value)
-//@   ensures[C05,C01] and: !old(e.Evaluated) && err == nil && isBinary(e) && e.Operator == OpAnd ==> e.LeftExpression.Evaluated
+//@   ensures[C05,C01,C14] and: !old(e.Evaluated) && err == nil && isBinary(e) && e.Operator == OpAnd ==> e.LeftExpression.Evaluated
 //@        && ((fnok_EvaluateLogicSingle(e.LeftExpression.Value) && !fn_EvaluateLogicSingle_0(e.LeftExpression.Value).b) ==> val == fn_EvaluateLogicSingle_0(e.LeftExpression.Value))
 //@        && (!(fnok_EvaluateLogicSingle(e.LeftExpression.Value) && !fn_EvaluateLogicSingle_0(e.LeftExpression.Value).b) ==> e.RightExpression.Evaluated && val == fn_EvaluateLogicAnd_0(e.LeftExpression.Value, e.RightExpression.Value))
-//@   ensures[C05,C01] or: !old(e.Evaluated) && err == nil && isBinary(e) && e.Operator == OpOr ==> e.LeftExpression.Evaluated
+//@   ensures[C05,C01,C14] or: !old(e.Evaluated) && err == nil && isBinary(e) && e.Operator == OpOr ==> e.LeftExpression.Evaluated
 //@        && ((fnok_EvaluateLogicSingle(e.LeftExpression.Value) && fn_EvaluateLogicSingle_0(e.LeftExpression.Value).b) ==> val == fn_EvaluateLogicSingle_0(e.LeftExpression.Value))
 //@        && (!(fnok_EvaluateLogicSingle(e.LeftExpression.Value) && fn_EvaluateLogicSingle_0(e.LeftExpression.Value).b) ==> e.RightExpression.Evaluated && val == fn_EvaluateLogicOr_0(e.LeftExpression.Value, e.RightExpression.Value))
 //@   ensures[C05] negation: !old(e.Evaluated) && err == nil && e.ExpressionAtom == nil && e.SingleExpression != nil && e.Negated && e.SingleExpression.Value.kind == 1
